@@ -89,7 +89,7 @@ pub fn shapes(chain: &[Stage]) -> (Vec<Shape>, Shape, Vec<usize>) {
 /// Source elements in source order. For `Endless` this is one period.
 pub fn source_values(case: &Case) -> Vec<V> {
     match case.source {
-        Source::Range { start } | Source::RangeIter { start } => (0..case.input.len())
+        Source::Range { start } | Source::RangeIter { start } | Source::NestedCopied { start } => (0..case.input.len())
             .map(|i| {
                 let x = start as usize + i;
                 V {
@@ -120,6 +120,23 @@ pub fn source_values(case: &Case) -> Vec<V> {
             .map(|(i, &val)| V { uid: root_uid(i), val })
             .collect(),
     }
+}
+
+/// group sizes of the nested sources: a fixed cycle with empty and multi-element groups
+pub fn nested_group_sizes(total: usize) -> Vec<usize> {
+    let cycle = [3usize, 0, 1, 2, 0, 0, 4, 1];
+    let mut out = vec![];
+    let mut left = total;
+    let mut i = 0;
+    while left > 0 {
+        let g = cycle[i % cycle.len()].min(left);
+        out.push(g);
+        left -= g;
+        i += 1;
+    }
+    // trailing empty groups as well
+    out.push(0);
+    out
 }
 
 /// Builds the std chain. `log` receives every stage closure call.
